@@ -116,11 +116,6 @@ class NameSanitizer:
         # "date" or "field" would shadow them for the fields declared after it
         "date",
         "field",
-        # Members of the generated APIClient / MockAPIClient: a tag of that name would be a property that the member
-        # of the same name replaces (request, close) or that makes the constructor fail (transport has no setter)
-        "transport",
-        "request",
-        "close",
         # Other problematic names
         "data",
         "model",
@@ -131,6 +126,12 @@ class NameSanitizer:
         "utils",
         "helpers",
     }
+
+    # Members of the generated APIClient / MockAPIClient. A tag's client is exposed as a property named after the tag's
+    # module: a tag of one of these names would be a property that the member of the same name replaces (request, close)
+    # or that makes the constructor fail (transport has no setter). Only module / attribute names are affected - a
+    # schema called Request stays class Request.
+    RESERVED_MODULE_NAMES = {"transport", "request", "close"}
 
     # Class names that every generated endpoints / models module binds in its own namespace (typing constructs, the
     # runtime's transport and error classes, the serializer): a model class of the same name would replace them there
@@ -172,7 +173,11 @@ class NameSanitizer:
         if module and module[0].isdigit():
             module = "_" + module
         # Avoid Python keywords and reserved names
-        if keyword.iskeyword(module) or module in NameSanitizer.RESERVED_NAMES:
+        if (
+            keyword.iskeyword(module)
+            or module in NameSanitizer.RESERVED_NAMES
+            or module in NameSanitizer.RESERVED_MODULE_NAMES
+        ):
             module += "_"
         return module
 
